@@ -30,13 +30,14 @@ def make_replay(rep, ob, concrete=None):
             'solver_output': (ob.output or '')[:20000], 'source_ref': ob.src, 'model': ob.model, 'meta': {k: v for k, v in ob.meta.items() if isinstance(v, (str, int, float, list, dict))}}
     confirmed = None
     rp = ob.meta.get('replayer')
-    if ob.model and rp is not None:
+    if ob.answer == 'sat' and rp is not None:
         try:
             confirmed = rp(ob, ob.model)
         except Exception as e:
             data['replay_error'] = repr(e)
     if confirmed and confirmed.get('violates'):
         data['replayed'] = confirmed
+        print('  replayed on the real code: %s' % '; '.join(confirmed.get('violated_clauses', []))[:300])
     else:
         if confirmed is not None:
             data['replayed'] = confirmed
